@@ -756,3 +756,14 @@ func sameBlockStore(a *ssa.Alloc, ld *ssa.UnOp) ssa.Value {
 	}
 	return nil
 }
+
+// ContentOrigin: like Origin, but for the address of a local returns what the local holds.
+func (p *Prog) ContentOrigin(v ssa.Value) *Org {
+	o := p.Origin(v)
+	if o.Kind == "new" {
+		if al, ok := o.Val.(*ssa.Alloc); ok {
+			return globalOrigins.allocContent(al, nil, 0)
+		}
+	}
+	return o
+}
